@@ -130,9 +130,18 @@ pub fn check_unary(rope: &Rope<'_>, s: &str) -> Result<(), String> {
     let last = other.len() - 1;
     other[last] = if other[last] == 'a' { 'b' } else if other[last].len_utf8() == 1 { 'a' } else { other[last] };
     let other: String = other.into_iter().collect();
-    if other.len() == s.len() && other != s {
-      ck!("== &str (different, same length)", *rope == other.as_str(), false, s);
-      ck!("== rope (different, same length)", *rope == Rope::from(other.as_str()), false, s);
+    // ... and the same characters in another order (same length in bytes, character boundaries elsewhere)
+    let cs: Vec<char> = s.chars().collect();
+    let rot_l: String = cs[1..].iter().chain(cs[..1].iter()).collect();
+    let rot_r: String = cs[cs.len() - 1..].iter().chain(cs[..cs.len() - 1].iter()).collect();
+    let rev: String = cs.iter().rev().collect();
+    for other in [other, rot_l, rot_r, rev] {
+      if other.len() == s.len() && other != s {
+        ck!(format!("== &str (different, same length: {other:?})"), *rope == other.as_str(), false, s);
+        ck!(format!("== str (different, same length: {other:?})"), *rope == *other.as_str(), false, s);
+        ck!(format!("== rope (different, same length: {other:?})"), *rope == Rope::from(other.as_str()), false, s);
+        ck!(format!("rope (different, same length: {other:?}) == rope"), Rope::from(other.as_str()) == *rope, false, s);
+      }
     }
   }
   // slicing: every (a, b) in [0, len+1]^2; for long strings a sample of positions around the ends,
@@ -248,6 +257,8 @@ pub fn check_binary(r1: &Rope<'static>, s1: &str, r2: &Rope<'static>, s2: &str) 
   ck!("rope == rope", *r1 == *r2, s1 == s2, ctx);
   ck!("rope == rope (reverse)", *r2 == *r1, s1 == s2, ctx);
   ck!("rope == &str", *r1 == s2, s1 == s2, ctx);
+  ck!("rope == str", *r1 == *s2, s1 == s2, ctx);
+  ck!("rope == str (reverse)", *r2 == *s1, s1 == s2, ctx);
   // prefixes of the first rope: every char-boundary prefix, built as one piece and as two
   for k in 0..=s1.len() {
     if s1.is_char_boundary(k) {
